@@ -14,7 +14,7 @@ import tempfile
 
 from vlib import trace
 
-UNIVERSE = ["a", "b", "ab", "zb", "c.d", "x-y=1", "not-r"]     # = Univ of the TLA+ modules
+UNIVERSE = ["a", "b", "ab", "zb", "c.d", "x-y=1", "NOT-r"]     # = Univ of the TLA+ modules
 SUBSETS = [[UNIVERSE[i] for i in range(len(UNIVERSE)) if (k >> i) & 1] for k in range(2 ** len(UNIVERSE))]
 
 
